@@ -724,6 +724,9 @@ func (db *DB) CheckpointNoLock(ctx context.Context) (err error) {
 
 	// Copy pages from the WAL to the main database file & resize db file.
 	if len(offsets) > 0 {
+		if db.pageSize == 0 {
+			return fmt.Errorf("page size required to checkpoint wal")
+		}
 		buf := make([]byte, db.pageSize)
 		for pgno, offset := range offsets {
 			if _, err := walFile.Seek(offset+WALFrameHeaderSize, io.SeekStart); err != nil {
